@@ -271,7 +271,22 @@ class NP:
         out.prefix_ghost = ghosts[-1]
         return out
 
-    def argsort(self, a):
+    def minimum(self, a, b):
+        if isinstance(a, Arr) or isinstance(b, Arr):
+            a = a if isinstance(a, Arr) else arrays.full([], a, arrays._scalar_dtype(a))
+            return a._ew(b, lambda p, q: sym.smin(p, q))
+        return sym.smin(a, b)
+
+    def maximum(self, a, b):
+        if isinstance(a, Arr) or isinstance(b, Arr):
+            a = a if isinstance(a, Arr) else arrays.full([], a, arrays._scalar_dtype(a))
+            return a._ew(b, lambda p, q: sym.smax(p, q))
+        return sym.smax(a, b)
+
+    def clip(self, a, lo, hi):
+        return self.minimum(self.maximum(a, lo), hi)
+
+    def argsort(self, a, axis=-1, kind=None):
         """A permutation pi of 0..n-1 with a[pi[r]] <= a[pi[r+1]] (tie order unspecified).
         Facts are supplied by instantiation: range and inverse at every evaluation, order at
         the indices a contract names (pi.sorted_fact)."""
